@@ -14,6 +14,8 @@ Peers == {"A", "B"}
 Other(p) == IF p = "A" THEN "B" ELSE "A"
 Parity(p) == IF p = "B" THEN 0 ELSE 1          \* client even, server odd
 NoId == 100000
+BurstProcs == 8                             \* goroutines asking the allocator at once in an allocBurst
+IdTop == 2 * MaxChans + 12 + 2 * 2 * BurstProcs * 3
 
 VARIABLES chans,      \* chans[p]: sequence of [id, explicit, negotiated, origin ("local"|"remote"), closed]
           used,       \* used[p]: ids the endpoint's allocator considers taken
@@ -29,8 +31,8 @@ Init == /\ chans = [p \in Peers |-> <<>>] /\ used = [p \in Peers |-> {}]
         /\ connectAt \in 0..(MaxSteps - 2) /\ path = <<>>
 
 Tick == n < MaxSteps /\ n' = n + 1
-Alloc(p, taken) == CHOOSE i \in 0..(2 * MaxChans + 12) : i % 2 = Parity(p) /\ i \notin taken
-                        /\ \A j \in 0..(2 * MaxChans + 12) : (j % 2 = Parity(p) /\ j \notin taken) => i <= j
+Alloc(p, taken) == CHOOSE i \in 0..IdTop : i % 2 = Parity(p) /\ i \notin taken
+                        /\ \A j \in 0..IdTop : (j % 2 = Parity(p) /\ j \notin taken) => i <= j
 
 \* opening a channel of p: gives it an id if it has none; an in-band channel appears at the peer
 OpenOne(c, p, taken) == IF c.id = NoId THEN [c EXCEPT !.id = Alloc(p, taken)] ELSE c
@@ -86,11 +88,22 @@ Close(p, i) ==
   /\ UNCHANGED <<used, connected>>
   /\ last' = [op |-> "close", who |-> p, k |-> i - 1]
 
+\* BurstProcs goroutines of p asking for k ids each, racing with each other (CreateDataChannel calls from several goroutines end up
+\* in the allocator at the same time): whatever the interleaving, k different free ids are taken
+RECURSIVE TakeK(_, _, _)
+TakeK(p, taken, k) == IF k = 0 THEN taken ELSE TakeK(p, taken \cup {Alloc(p, taken)}, k - 1)
+AllocBurst(p, k) ==
+  /\ Tick /\ connected /\ Cardinality(used[p]) <= MaxChans + 6     \* at most two bursts per endpoint
+  /\ used' = [used EXCEPT ![p] = TakeK(p, @, BurstProcs * k)]
+  /\ UNCHANGED <<chans, connected>>
+  /\ last' = [op |-> "allocBurst", who |-> p, k |-> k]
+
 Next == /\ UNCHANGED connectAt
         /\ IF n = connectAt /\ ~connected THEN Connect
            ELSE \/ \E p \in Peers, e \in ExplicitIds \cup {NoId} : Create(p, e)
                 \/ \E e \in ExplicitIds : CreateNegotiated(e)
                 \/ \E p \in Peers, i \in 1..MaxChans : Close(p, i)
+                \/ \E p \in Peers, k \in {2, 3} : AllocBurst(p, k)
         /\ path' = IF RecordPath THEN Append(path, last') ELSE path
 
 \* ---- normative statements
